@@ -278,7 +278,15 @@ def finish(prop, tier, conds, results, seed, hseed, t_start, verbose):
             violations.append((path, {"cond": a["cond"], "raw": a["raw"], "failures": res[0]["fails"]}))
 
     # ---- executed library functions: native profile of the samples
-    prof_items = [{"property": prop, "cond": s["cond"], "raw": s["raw"]} for s in all_samples[:60]]
+    by_cond = {}
+    for smp in all_samples:
+        by_cond.setdefault(smp["cond"], []).append(smp)
+    rr = []
+    for i in range(12):
+        for lst in by_cond.values():
+            if i < len(lst):
+                rr.append(lst[i])
+    prof_items = [{"property": prop, "cond": s["cond"], "raw": s["raw"]} for s in rr[:60]]
     executed = []
     if prof_items:
         _, executed, _ = native_batch(prof_items, tier, hseed, 180, profile=True, tag="prof")
@@ -290,6 +298,17 @@ def finish(prop, tier, conds, results, seed, hseed, t_start, verbose):
         if fnd.get("property") != prop:
             continue
         seen_now = fnd["id"] in knowns
+        ex = fnd.get("example")
+        if ex and not seen_now:
+            # the entry's own example, replayed natively: does the finding still exist on this tree?
+            res, _, _ = native_batch([{"property": prop, "cond": ex["cond"], "raw": ex["raw"]}], tier, hseed, 120,
+                                     tag="kf")
+            if res and res[0].get("ok") and fnd["id"] in (res[0].get("knowns") or {}):
+                seen_now = True
+            elif res and res[0].get("ok"):
+                known_lines.append("[vf] note: the example of known finding %s no longer fails on this tree "
+                                   "(stale entry; it suppresses nothing)" % fnd["id"])
+                continue
         known_lines.append("KNOWN-FINDING: property=%s %s — %s%s" % (
             prop, fnd["id"], fnd["description"],
             "" if seen_now else " [not met inside this run's bound]"))
@@ -304,7 +323,7 @@ def finish(prop, tier, conds, results, seed, hseed, t_start, verbose):
             "evaluations": counts_total["reached"],
             "distinct_nontrivial": len(distinct),
             "rule": "; ".join(sorted({"%s: %s" % (c.name, c.rule) for c in conds})),
-            "samples": all_samples[:12],
+            "samples": rr[:12] if rr else all_samples[:12],
             "exhaustive": exhaustive,
             "paths_explored": paths,
             "assumed_away_paths": counts_total["assumed_away"],
